@@ -439,6 +439,32 @@ func runC20(c *Ctx) {
 			c.Pred("pairs", "dedup-keeps-different-names", "a="+hx(wa)+" b="+hx(wb), len(out) == 2 || canonRR(wa) == canonRR(wb), fmt.Sprint(len(out)), "2", true)
 		}
 	}
+	// the scratch map handed to Dedup may be used again for the next call (Dedup empties it as it goes): whatever the
+	// earlier lists were — all records distinct, or not — the next list is de-duplicated as with a fresh map
+	{
+		mk := func(name string, ttl uint32, last byte) dns.RR {
+			return &dns.A{Hdr: dns.RR_Header{Name: name, Rrtype: dns.TypeA, Class: 1, Ttl: ttl}, A: []byte{192, 0, 2, last}}
+		}
+		lists := [][]dns.RR{
+			{mk("a.example.", 500, 1), mk("b.example.", 500, 2)},                        // all distinct
+			{mk("a.example.", 500, 1), mk("a.example.", 50, 1)},                         // the same pair as before, twice
+			{mk("c.example.", 500, 3), mk("c.example.", 50, 3), mk("d.example.", 9, 4)}, // new to the map
+			{mk("e.example.", 1, 5)},
+			{mk("e.example.", 7, 5), mk("E.example.", 3, 5), mk("f.example.", 3, 6)},
+		}
+		m := map[string]dns.RR{}
+		for i, l := range lists {
+			var fresh, reused []string
+			for _, rr := range dns.Dedup(copyRRs(l), nil) {
+				fresh = append(fresh, rr.String())
+			}
+			for _, rr := range dns.Dedup(copyRRs(l), m) {
+				reused = append(reused, rr.String())
+			}
+			c.Pred("dedup", "dedup-with-reused-map", fmt.Sprintf("call %d with the map of the calls before", i+1), strings.Join(fresh, "|") == strings.Join(reused, "|"),
+				strings.Join(reused, " | "), strings.Join(fresh, " | "), i > 0)
+		}
+	}
 	// the OPT pseudo-record is a record too: one read from the wire is a duplicate of itself and of its copy
 	for i := 0; i < 4; i++ {
 		o := &dns.OPT{Hdr: dns.RR_Header{Name: ".", Rrtype: dns.TypeOPT}}
@@ -564,4 +590,12 @@ func runC20(c *Ctx) {
 		out := dns.Dedup(all, nil)
 		c.Pred("wire-born", "dedup-across-compression", views[0][0].String(), len(out) == len(distinct), fmt.Sprint(len(out)), fmt.Sprint(len(distinct)), true)
 	}
+}
+
+func copyRRs(l []dns.RR) []dns.RR {
+	out := make([]dns.RR, len(l))
+	for i, rr := range l {
+		out[i] = dns.Copy(rr)
+	}
+	return out
 }
